@@ -519,4 +519,31 @@ theorem read_step (opts : List SOpt) (hok : OptsOk opts) {argv : List Buf} {st :
       rw [hn]
       simpa [size, fetch] using key
 
+
+/-- the caller's loop from any state between two reads: with fuel beyond the number of remaining
+    characters and words it ends with exactly the specified results; with any fuel it never faults -/
+theorem readAll_spec (opts : List SOpt) (hok : OptsOk opts) {argv : List Buf} :
+    ∀ (n : Nat) (st : St) (pending : List Nat) (rest : List Word), Rel argv st pending rest →
+      (pending.length + size rest < n → readAll (opts.map toModel) n st = .ok (cont opts st.skipOpt pending rest)) ∧
+      readAll (opts.map toModel) n st ≠ .fault := by
+  intro n
+  induction n with
+  | zero => intro st pending rest _; exact ⟨fun h => absurd h (Nat.not_lt_zero _), by simp [readAll]⟩
+  | succ n ih =>
+    intro st pending rest h
+    rcases read_step opts hok h with ⟨st', hrd, hc⟩ | ⟨r, st', p', rest', hrd, hR, hm, hc⟩
+    · simp [readAll, hrd, hc]
+    · have ih' := ih st' p' rest' hR
+      refine ⟨fun hlt => ?_, ?_⟩
+      · simp only [readAll, hrd, ih'.1 (by omega), Run.cons, hc]
+      · simp only [readAll, hrd]
+        cases hq : readAll (opts.map toModel) n st' with
+        | fault => exact absurd hq ih'.2
+        | fuel => simp [Run.cons]
+        | ok rs => simp [Run.cons]
+
+theorem Rel.init (prog : Buf) (ws : List Word) (hws : ∀ w ∈ ws, NoNul w) :
+    Rel (prog :: ws.map term) (St.init (prog :: ws.map term)) [] ws :=
+  ⟨rfl, by simp [St.init], ⟨[0], [], rfl, rfl, rfl⟩, by intro x hx; simp at hx, hws, by simp, by simp [St.init]⟩
+
 end Nstd.Args
